@@ -23,6 +23,14 @@ def run(tier):
     rs = engine.model_check(vd, "scopes", 2 if tier == "quick" else 3)
     if rs.violated:
         vd.observe("model:scopes:" + rs.violated, {"tlc_invariant": rs.violated, "output": rs.out[-6000:]})
+    # self-test: with the branches of an ALT built in the enclosing scope (the build before fix 0e4c750) well-formedness
+    # and the build-time errors of the mechanism layer disagree on `let' under a postfix `?'
+    import tlc
+    mt = tlc.run_tlc("Progs", constants={"MaxW": 3, "Shard": 0, "NShards": 1, "OutFile": os.path.join(wd, "mutant.ndjson"), "Family": "scopes",
+                                         "PinnedMerge": False, "WithNoSimp": False, "Light": False, "WithTwin": False},
+                     overrides={"AltSharesScope": "Yes"}, workers=1, timeout=900, heap="6g")
+    if "is false" not in mt.out:
+        raise common.ToolError("EngineOps.tla: AltSharesScope is not caught\n" + mt.out[-1500:])
     vecs3, st3 = engine.generate("scopes", 3 if tier == "quick" else 4, 16, wd)
     engine.replay(vd, vecs3, bdir, wd, PID, check_illformed=True)
     # a binder that carries the name of a builtin word (length), read directly and from nested blocks
